@@ -217,7 +217,144 @@ def dump(repo: str) -> dict:
                 origin(resp.econet_type), origin(resp.econet_version)]
 
     out["answers"] = [a for a in (_answer(k) for k in out["request_kinds"]) if a is not None]
+    out["set_routes"] = _set_routes(parameter, ecomax_parameters, mixer_parameters, thermostat_parameters, schedules, dev_ecomax)
     return out
+
+
+def _set_routes(parameter, ecomax_parameters, mixer_parameters, thermostat_parameters, schedules, dev_ecomax):
+    """C08: the public set ROUTES as data.  Every public method of the parameter classes and of the device classes
+    whose name starts with set/turn and that takes a `value` (or is a turn_* convenience) is called on a probe whose
+    base machine `Parameter.set` is replaced by a recorder, with a value, a number of attempts, an interval and a
+    device-level wait that are all distinct and unlike any default, in every argument form.  A row says where each of
+    the three arguments that REACH the base machine came from:
+      1 the caller's value   2 the caller's retries   3 the caller's timeout   4 the caller's device-level wait
+      1000+c the constant c (value: 1001 'on', 1000 'off'; timeout in ms)   997 None   998 no / several calls   999 anything else
+    row = [class, owner kind (0 parameter, 1 device, 2 EcoMAX convenience), method code, form code, value, retries, timeout]
+    method: 0 set 1 set_nowait 2 turn_on 3 turn_off 4 turn_on_nowait 5 turn_off_nowait 99 a method the model does not know
+    form  : 0 f(v) 1 f(v, retries=r, timeout=t) 2 f(v, r, t) 3 f(v, timeout=t, retries=r) 4 f(v, r) 5 f(v, retries=r)
+            6 f(v, timeout=t) 7 f()"""
+    import asyncio
+    import re
+
+    from pyplumio.devices.mixer import Mixer
+    from pyplumio.devices.thermostat import Thermostat
+    from pyplumio.structures.network_info import NetworkInfo
+
+    R, T, W = 3, 7.5, 0.25
+    METHODS = {"set": 0, "set_nowait": 1, "turn_on": 2, "turn_off": 3, "turn_on_nowait": 4, "turn_off_nowait": 5}
+    log = []
+
+    _sig = inspect.signature(parameter.Parameter.set).parameters      # the recorder keeps the base machine's own defaults
+    _dr, _dt = _sig["retries"].default, _sig["timeout"].default
+
+    async def recorder(self, value, retries=_dr, timeout=_dt):
+        log.append((value, retries, timeout))
+        return True
+
+    def vsrc(v, V):
+        if isinstance(v, str):
+            return {"on": 1001, "off": 1000}.get(v, 999)
+        return 1 if v == V else 999
+
+    def rsrc(r):
+        if r is None:
+            return 997
+        for code, x in ((2, R), (3, T), (4, W)):
+            if r == x:
+                return code
+        return 1000 + r if isinstance(r, int) and 0 <= r < 900 else 999
+
+    def tsrc(t):
+        if t is None:
+            return 997
+        for code, x in ((3, T), (2, R), (4, W)):
+            if t == x:
+                return code
+        ms = t * 1000
+        return 1000 + int(ms) if ms == int(ms) and 0 <= ms < 10 ** 6 else 999
+
+    def public_routes(cls):
+        names = []
+        for n in dir(cls):
+            fn = getattr(cls, n, None)
+            if n.startswith("_") or not re.match(r"(set|turn)", n) or not callable(fn):
+                continue
+            try:
+                params = inspect.signature(fn).parameters
+            except (TypeError, ValueError):
+                continue
+            if n.startswith("turn_") or "value" in params:
+                names.append(n)
+        return sorted(names)
+
+    def forms(V, t, first=()):
+        return {0: (first + (V,), {}), 1: (first + (V,), dict(retries=R, timeout=t)), 2: (first + (V, R, t), {}),
+                3: (first + (V,), dict(timeout=t, retries=R)), 4: (first + (V, R), {}), 5: (first + (V,), dict(retries=R)),
+                6: (first + (V,), dict(timeout=t))}
+
+    async def probe(obj, meth, args, kw, V):
+        log.clear()
+        try:
+            r = getattr(obj, meth)(*args, **kw)
+            if inspect.isawaitable(r):
+                await r
+            for _ in range(6):
+                await asyncio.sleep(0)
+        except Exception:  # noqa: BLE001
+            return [999, 999, 999]
+        if len(log) != 1:
+            return [998, 998, 998]
+        v, r_, t_ = log[0]
+        return [vsrc(v, V), rsrc(r_), tsrc(t_)]
+
+    async def main():
+        rows = []
+        eco = dev_ecomax.EcoMAX(asyncio.Queue(), NetworkInfo())
+        mixer = Mixer(asyncio.Queue(), eco, 1)
+        thermostat = Thermostat(asyncio.Queue(), eco, 1)
+        classes = [
+            (parameter.Number, parameter.NumberDescription), (parameter.Switch, parameter.SwitchDescription),
+            (ecomax_parameters.EcomaxNumber, ecomax_parameters.EcomaxNumberDescription),
+            (ecomax_parameters.EcomaxSwitch, ecomax_parameters.EcomaxSwitchDescription),
+            (mixer_parameters.MixerNumber, mixer_parameters.MixerNumberDescription),
+            (mixer_parameters.MixerSwitch, mixer_parameters.MixerSwitchDescription),
+            (thermostat_parameters.ThermostatNumber, thermostat_parameters.ThermostatNumberDescription),
+            (thermostat_parameters.ThermostatSwitch, thermostat_parameters.ThermostatSwitchDescription),
+            (schedules.ScheduleNumber, schedules.ScheduleNumberDescription),
+            (schedules.ScheduleSwitch, schedules.ScheduleSwitchDescription),
+        ]
+        for cls, desc in classes:
+            V = 1 if issubclass(cls, parameter.Switch) else 37
+            p = cls(eco, desc(name="probe"), parameter.ParameterValues(0, 0, 255))
+            for meth in public_routes(cls):
+                code = METHODS.get(meth, 99)
+                if meth.startswith("turn_") or code == 99:
+                    rows.append([cls.__name__, 0, code, 7] + await probe(p, meth, (), {}, V))
+                    continue
+                for form, (args, kw) in forms(V, T).items():
+                    rows.append([cls.__name__, 0, code, form] + await probe(p, meth, args, kw, V))
+        for dev in (eco, mixer, thermostat):
+            p = parameter.Number(dev, parameter.NumberDescription(name="probe"), parameter.ParameterValues(0, 0, 255))
+            dev.data["probe"] = p
+            for meth in public_routes(type(dev)):
+                code = METHODS.get(meth, 99)
+                if meth.startswith("turn_") or code == 99:
+                    sw = ecomax_parameters.EcomaxSwitch(dev, ecomax_parameters.ECOMAX_CONTROL_PARAMETER, parameter.ParameterValues(0, 0, 1))
+                    dev.data[ecomax_parameters.ATTR_ECOMAX_CONTROL] = sw
+                    rows.append([type(dev).__name__, 2, code, 7] + await probe(dev, meth, (), {}, 1))
+                    continue
+                for form, (args, kw) in forms(37, W, ("probe",)).items():
+                    rows.append([type(dev).__name__, 1, code, form] + await probe(dev, meth, args, kw, 37))
+        for dev in (eco, mixer, thermostat):
+            dev.cancel_tasks()
+        return rows
+
+    orig = parameter.Parameter.set
+    parameter.Parameter.set = recorder
+    try:
+        return asyncio.run(main())
+    finally:
+        parameter.Parameter.set = orig
 
 
 def emit_lean(d: dict) -> dict[str, str]:
@@ -318,6 +455,17 @@ def emit_lean(d: dict) -> dict[str, str]:
     body = hdr + "namespace PlumVerif.Gen\n\n"
     body += "/-- frame type codes for which `Request.create` yields a request frame -/\n"
     body += "def requestKinds : List Nat := " + lean_list([str(x) for x in d["request_kinds"]], 12) + "\n\n"
+    body += (
+        "/-- the public set routes, probed (tools/gen_tables.py `_set_routes`): (class, owner kind, method, argument form,\n"
+        "    source of the value / retries / timeout that reach `Parameter.set`).  owner 0 parameter, 1 device, 2 EcoMAX convenience;\n"
+        "    method 0 set 1 set_nowait 2 turn_on 3 turn_off 4 turn_on_nowait 5 turn_off_nowait 99 unknown;\n"
+        "    form 0 f(v) 1 f(v, retries=r, timeout=t) 2 f(v, r, t) 3 f(v, timeout=t, retries=r) 4 f(v, r) 5 f(v, retries=r) 6 f(v, timeout=t) 7 f();\n"
+        "    source 1 caller's value 2 caller's retries 3 caller's timeout 4 caller's device-level wait 1000+c constant c (ms for the timeout;\n"
+        "    1001 'on', 1000 'off') 997 None 998 no/several calls 999 other -/\n"
+        "def setRoutes : List (String × Nat × Nat × Nat × Nat × Nat × Nat) := "
+        + lean_list([f"({lean_str(c_)}, {o}, {m}, {f}, {v}, {r}, {t})" for c_, o, m, f, v, r, t in d["set_routes"]], 3)
+        + "\n\n"
+    )
     body += "end PlumVerif.Gen\n"
     files["Requests.lean"] = body
     return files
